@@ -167,6 +167,32 @@ func getC01Fixture(cfg c01cfg) *c01fix {
 	seg("C4,C5", C[:2]...)
 	seg("C4..C6", C[:3]...)
 	seg("C5,C6", C[1:3]...)
+	// one message that runs through the trunk and on into fork C: with
+	// checkpoints at 2 and 4 it carries the genuine header of one checkpoint
+	// and a valid header that is not the next one
+	seg("T1..T3,C4", f.trunk[1], f.trunk[2], f.trunk[3], C[0])
+	seg("T2,T3,C4,C5", f.trunk[2], f.trunk[3], C[0], C[1])
+	seg("T3,C4", f.trunk[3], C[0])
+	// forks whose clocks run differently from the trunk's, so that the
+	// median time past seen from the fork differs from the one seen from the
+	// trunk at the same height: D from T1 with one minute between blocks
+	// (every header valid, but earlier than the trunk's median time from
+	// height 4 on), E from T1 with 30 minutes between blocks and a last
+	// header that is later than the trunk's median time but not later than
+	// the fork's own (invalid).
+	D := fork(f.trunk[1], 6, 4, "D", time.Minute)
+	seg("D2..D6", D[:5]...)
+	seg("D2..D7", D[:6]...)
+	seg("D2..D5", D[:4]...)
+	E := fork(f.trunk[1], 4, 5, "E", 30*time.Minute)
+	{
+		parent := E[3] // E5
+		ts := f.trunk[1].Hdr.Timestamp.Add(45 * time.Minute)
+		x := f.add(verifchain.MineAt(p, parent, ts, verifchain.RequiredBits(p, parent, ts), 11, "Eold6", true))
+		x.Invalid = "time-too-old"
+		seg("E2..E5,Eold6", append(append([]*verifchain.Node{}, E...), x)...)
+		seg("E2..E5", E...)
+	}
 	seg("empty")
 	c01fixtures[cfg.name] = f
 	return f
